@@ -15,7 +15,8 @@
 EXTENDS Naturals, FiniteSets, Sequences, TLC
 
 CONSTANTS Ver,        \* protocol versions
-          Adv,        \* [Ver -> [fmt, srs, lay, info : sets of names]] as listed in the capabilities of that version
+          Adv,        \* [Ver -> [fmt, srs, lay, qlay : sets of names]] as listed in the capabilities of that version
+                      \* (qlay: the layers marked queryable)
           Conf,       \* [fmt, srs, lay : sets] what the configuration enables (names as of version 1.1.1)
           Alias,      \* [Ver -> [name -> name]] spelling of a configured format in that version (1.0.0: PNG for image/png;
                       \* formats that WMS 1.0.0 has no element for - image/GeoTIFF - are not in the domain)
@@ -36,10 +37,20 @@ MapOutcome(v, f, s, l) ==
   ELSE "image"
 
 GetMap(v, f, s, l) ==
-  last' = [op |-> "map", v |-> v, f |-> f, s |-> s, l |-> l, out |-> MapOutcome(v, f, s, l),
+  last' = [op |-> "map", v |-> v, f |-> f, s |-> s, l |-> l, ql |-> "-", out |-> MapOutcome(v, f, s, l),
            ct |-> IF MapOutcome(v, f, s, l) = "image" THEN Mime[f] ELSE "-"]
 
-Next == \E v \in Ver, f \in AllFmt \cup {"image/unknown"}, s \in AllSrs \cup {"EPSG:9999"}, l \in AllLay \cup {"nolayer"} : GetMap(v, f, s, l)
+\* GetFeatureInfo for the layers `l` with QUERY_LAYERS `ql` (listed format and reference system): a layer that is not
+\* listed - as LAYERS or as QUERY_LAYERS - or not marked queryable is refused with a service exception
+InfoOutcome(v, l, ql) ==
+  IF l \notin Adv[v].lay \/ ql \notin Adv[v].lay THEN "exception"
+  ELSE IF ql \notin Adv[v].qlay THEN "exception"
+  ELSE "info"
+GetInfo(v, l, ql) ==
+  last' = [op |-> "info", v |-> v, f |-> "-", s |-> "-", l |-> l, ql |-> ql, out |-> InfoOutcome(v, l, ql), ct |-> "-"]
+
+Next == \/ \E v \in Ver, l \in AllLay \cup {"nolayer"}, ql \in AllLay \cup {"nolayer"} : GetInfo(v, l, ql)
+        \/ \E v \in Ver, f \in AllFmt \cup {"image/unknown"}, s \in AllSrs \cup {"EPSG:9999"}, l \in AllLay \cup {"nolayer"} : GetMap(v, f, s, l)
 Spec == Init /\ [][Next]_vars
 
 \* what the configuration enables is listed by every version (in the spelling of that version)
@@ -56,4 +67,7 @@ AdvertisedIsConfigured ==
 AdvertisedIsServed ==
   [][\A v \in Ver : (last'.op = "map" /\ last'.f \in Adv[last'.v].fmt /\ last'.s \in Adv[last'.v].srs /\ last'.l \in Adv[last'.v].lay)
         => last'.out = "image"]_vars
+\* every layer that the capabilities mark queryable answers GetFeatureInfo
+QueryableIsServed ==
+  [][(last'.op = "info" /\ last'.l \in Adv[last'.v].lay /\ last'.ql \in Adv[last'.v].qlay) => last'.out = "info"]_vars
 =============================================================================
